@@ -567,17 +567,25 @@ struct RecChooser {
     seeds: Arc<Mutex<Vec<u64>>>,
 }
 
+/// A chooser whose answers depend only on the trace's seed, the current state and the options
+/// offered (not on how often it was asked before), so that the expected trace does not depend
+/// on implementation details such as whether the chooser is consulted when there is one option.
+fn stateless_choice(seed: u64, at: u64, options: &[u16]) -> usize {
+    (crate::rng::mix(&[seed, at, crate::ctx::hash_of(&options)]) % options.len() as u64) as usize
+}
+
 impl Chooser<GraphModel> for RecChooser {
-    type State = crate::rng::Rng;
+    type State = u64;
     fn new_state(&self, seed: u64) -> Self::State {
         self.seeds.lock().unwrap().push(seed);
-        crate::rng::Rng::new(seed)
+        seed
     }
     fn choose_initial_state(&self, state: &mut Self::State, initial_states: &[u32]) -> usize {
-        state.below(initial_states.len())
+        let as_options: Vec<u16> = initial_states.iter().map(|s| *s as u16).collect();
+        stateless_choice(*state, u64::MAX, &as_options)
     }
-    fn choose_action(&self, state: &mut Self::State, _current: &u32, actions: &[u16]) -> usize {
-        state.below(actions.len())
+    fn choose_action(&self, state: &mut Self::State, current: &u32, actions: &[u16]) -> usize {
+        stateless_choice(*state, *current as u64, actions)
     }
 }
 
@@ -666,40 +674,37 @@ fn seed_replay_case(case: &mut Case) {
         );
         return;
     }
-    // the trace must be what the chooser dictates: replay the choices independently
-    let mut rng = crate::rng::Rng::new(seed);
-    let mut expect: Vec<u32> = Vec::new();
+    // The trace must be what the chooser dictates, as far as the statement goes: the chosen
+    // initial state, then at every state the action the chooser picks among all enabled actions.
+    // The expectation stops where the implementation has latitude: when the chosen action is
+    // ignored or leads outside the boundary (how a second choice is offered is not specified),
+    // at a state seen before (cycle) and at a terminal state.
     let inits = model.init_states();
-    let mut state = inits[rng.below(inits.len())];
+    let init_options: Vec<u16> = inits.iter().map(|s| *s as u16).collect();
+    let mut state = inits[stateless_choice(seed, u64::MAX, &init_options)];
+    let mut expect: Vec<u32> = Vec::new();
     let mut seen = BTreeSet::new();
     loop {
         if !model.inb[state as usize] || !seen.insert(state) {
             break;
         }
         expect.push(state);
-        let mut actions: Vec<u16> = (0..model.out[state as usize].len() as u16).collect();
-        let mut next = None;
-        while !actions.is_empty() {
-            let i = rng.below(actions.len());
-            let a = actions.swap_remove(i);
-            if let Some(t) = model.out[state as usize][a as usize] {
-                if model.inb[t as usize] {
-                    next = Some(t);
-                    break;
-                }
-            }
+        let actions: Vec<u16> = (0..model.out[state as usize].len() as u16).collect();
+        if actions.is_empty() {
+            break;
         }
-        match next {
-            Some(t) => state = t,
-            None => break,
+        let a = actions[stateless_choice(seed, state as u64, &actions)];
+        match model.out[state as usize][a as usize] {
+            Some(t) if model.inb[t as usize] => state = t,
+            _ => break, // a second choice would be needed here
         }
     }
     let got: Vec<u32> = rec_traces[0].iter().map(|p| p.last().unwrap().0).collect();
     case.add("chooser_dictated_traces_compared", 1);
-    if got != expect {
+    if got.len() < expect.len() || got[..expect.len()] != expect[..] {
         case.violation(
             "C12/seed/first-trace-does-not-follow-the-chooser",
-            json!({"model": model.summary(), "seed": seed, "visited": got, "dictated_by_chooser": expect}),
+            json!({"model": model.summary(), "seed": seed, "visited": got, "dictated_by_chooser_up_to_the_first_second_choice": expect}),
         );
     }
 }
